@@ -28,6 +28,10 @@ export const STATEMENTS = {
   vslotsFn: (N) => `export const ${N} = () => <A0 v-slots={{ x: () => [g0] }}>{() => [f0()]}</A0>;`,
   textAndPragmaLike: (N) => `export const ${N} = () => <div>  a  {g0} b </div>;`,
   boundTagParam: (N) => `import ${N}_C from "probe:kid";\nexport function ${N}(Pq = ${N}_C) { return <Pq x={g0}>t</Pq>; }`,
+  divCallChild: (N) => `export const ${N} = () => <div>{f0()}</div>;`,
+  spanIdentChild: (N) => `export const ${N} = () => <span>{g0}</span>;`,
+  memberHtmlTag: (N) => `import * as ${N}_ns from "probe:ns2";\nexport const ${N} = () => <${N}_ns.span>{f0()}</${N}_ns.span>;`,
+  memberHtmlTagIdentChild: (N) => `import * as ${N}_ns from "probe:ns2";\nexport const ${N} = () => <${N}_ns.div>{g0}</${N}_ns.div>;`,
   reassignTwiceInner: (N, inner = '') => `export function ${N}(cell = "prev") {\n  ${inner.before ?? ''}\n  cell = <A0>{cell}</A0>;\n  cell = <B0>{cell}</B0>;\n  ${inner.after ?? ''}\n  return cell;\n}`,
   reassignParamInner: (N, inner = '') => `export function ${N}(cell = "prev") {\n  ${inner.before ?? ''}\n  cell = <A0>{cell}</A0>;\n  ${inner.after ?? ''}\n  return cell;\n}`,
   slotTempInner: (N, inner = '') => `export function ${N}() {\n  ${inner.before ?? ''}\n  const r = <A0>{f0()}</A0>;\n  ${inner.after ?? ''}\n  return r;\n}`,
@@ -63,6 +67,10 @@ export const DISTRACTORS = {
   identChildOther: (k) => `let d${k}n = 1;\nconst d${k}o = <B9>{d${k}n}</B9>;`,
   vmodelOther: (k) => `let d${k}p = 1;\nconst d${k}q = <input v-model={d${k}p} />;`,
   directiveOther: (k) => `const d${k}r = <div v-bar={g8} />;`,
+  bracelessLoops: (k) => `let d${k}t = 0;\nfor (const i of [1, 2]) d${k}t += i;\nwhile (d${k}t > 100) d${k}t--;\ndo d${k}t++; while (d${k}t < 0);\nfor (const key in {}) d${k}t++;\nfor (let i = 0; i < 1; i++) d${k}t += i;`,
+  stringStatement: (k) => `"marker ${k}";`,
+  memberHtmlTagUse: (k) => `import * as d${k}ns from "probe:ns2";\nconst d${k}mt = () => [<d${k}ns.div>{g8}</d${k}ns.div>, <d${k}ns.span>{g9()}</d${k}ns.span>];`,
+  plainHtmlWithCall: (k) => `const d${k}ph = () => [<div>{g9()}</div>, <span>{g8}</span>];`,
   blockAndLoop: (k) => `{ let q${k} = 0; for (let i = 0; i < 2; i++) { q${k} += i; } }`,
 };
 
@@ -71,6 +79,7 @@ export const INNER = [
   (k) => `const i${k}a = (n) => n * 2;`, (k) => `const i${k}b = (n) => (m) => n * m;`, (k) => `function i${k}c() { return 1; }`, (k) => `{ let i${k}d = 1; i${k}d++; }`,
   (k) => `if (typeof g8 !== "undefined") { Math.max(1, 2); }`, (k) => `for (let i = 0; i < 1; i++) { Math.min(i, 1); }`, (k) => `try { Math.abs(1); } catch (e) { Math.abs(2); }`,
   (k) => `const i${k}e = () => <B9>{g9()}</B9>;`, (k) => `const i${k}f = { m() { return 1; } };`, (k) => `class I${k}g { f = 1; m() { return 2; } }`, (k) => `switch (1) { case 1: { break; } default: { break; } }`,
+  (k) => `for (const q${k} of [1]) Math.max(q${k}, 1);`, (k) => `while (false) Math.abs(1);`, (k) => `do Math.abs(1); while (false);`, (k) => `for (let i = 0; i < 1; i++) Math.abs(i);`, (k) => `"marker ${k}";`, (k) => `if (typeof g8 === "symbol") Math.abs(1); else Math.abs(2);`,
   (k) => `let i${k}h = 0; i${k}h = i${k}h + 1;`, (k) => `const i${k}j = function () { return () => 3; };`, (k) => `lbl${k}: { break lbl${k}; }`,
 ];
 
@@ -80,7 +89,7 @@ const ENV = {
     g0: { v: { k: 'str', v: 'G0' }, log: true }, g1: { v: { k: 'fn', id: 'g1' }, log: false }, g2: { v: { k: 'obj', v: { title: { k: 'str', v: 'T' }, class: { k: 'str', v: 'sc' } } }, log: true },
     g8: { v: { k: 'str', v: 'G8' }, log: false }, g9: { v: { k: 'fn', id: 'g9', ret: { k: 'str', v: 'r9' } }, log: false },
   },
-  modules: { 'probe:kid': { default: { k: 'vnode', id: 'kidv' } } },
+  modules: { 'probe:kid': { default: { k: 'vnode', id: 'kidv' } }, 'probe:ns2': { div: { k: 'comp', id: 'ns2.div' }, span: { k: 'comp', id: 'ns2.span' } } },
 };
 
 function compose(parts) { return parts.filter((p) => p !== '').join('\n') + '\n'; }
